@@ -86,7 +86,7 @@ CHECKS.update({
         note='NOT decided: numerical truth of distances (C11); forest completeness (C01).'),
     'C03': dict(
         technique='edge-dominance filter rule, loop-exit enumeration, def-use audit of the budget, formula extraction, per-metric header field read/write sets',
-        text='Every id entering the candidate list is filtered or under the no-filter branch; the budget only gates the loop and is (search_k or count x n_trees) x (oversampling or DEFAULT) with saturating arithmetic; bounded distinct ordered output; by_item and by_vector share the traversal, unknown id => Ok(None); per metric the query path reads no header field that only the build-time preprocess fills. The C11 kernel-shape rules and the forest / staleness premises (C01, C06 rule sets) are re-evaluated.',
+        text='Every id entering the candidate list is filtered or under the no-filter branch; the budget only gates the loop and is (search_k or count x n_trees) x (oversampling or DEFAULT) with saturating arithmetic; bounded distinct ordered output; by_item and by_vector share the traversal, unknown id => Ok(None); per metric the query path reads no header field that only the build-time preprocess fills. The C11 kernel-shape rules and the forest / staleness premises (C01, C06 rule sets) are re-evaluated. Every QueryBuilder setter replaces exactly its own option by the caller value on every path (R-SETTER); by_item answers None only on the None arm of the item lookup.',
         design='DESIGN.md §4 C03',
         note='NOT decided: distance truth (C11); monotonicity is a consequence of the checked premises, not checked on values.'),
     'C04': dict(
@@ -111,7 +111,7 @@ CHECKS.update({
         note='NOT decided: termination when re-splitting does not shrink (C20); time.'),
     'C15': dict(
         technique='edge-dominance capacity gate on every bucket write, dominance of the worklist drain over the metadata put, formula/loop rules for the tree count',
-        text='fit_in_descendant is n <= split_after.unwrap_or(dimensions); every bucket write is under it, or queued for re-splitting, or a shrunk copy, or in a function only called under it; worklist drained before metadata; explicit Some(n) used unchanged, surplus roots removed with their trees deleted, exactly target - roots.len() roots created; the forest / staleness premises (C01, C06 rule sets) are re-evaluated. A merged bucket (union of two sub-trees) is never a shrunk copy; every id put on a worklist parameter is the id of a bucket written there. The automatic tree count is bounded below by 1 (interval evaluation of the automatic arm; the pinned tree returned 0 for one-dimensional indexes -- repaired by a fix: commit).',
+        text='fit_in_descendant is n <= split_after.unwrap_or(dimensions); every bucket write is under it, or queued for re-splitting, or a shrunk copy, or in a function only called under it; worklist drained before metadata; explicit Some(n) used unchanged, surplus roots removed with their trees deleted, exactly target - roots.len() roots created; the forest / staleness premises (C01, C06 rule sets) are re-evaluated. A merged bucket (union of two sub-trees) is never a shrunk copy; every id put on a worklist parameter is the id of a bucket written there. The automatic tree count is bounded below by 1 (interval evaluation of the automatic arm; the pinned tree returned 0 for one-dimensional indexes -- repaired by a fix: commit). Every ArroyBuilder setter replaces exactly its own option (R-SETTER: the order of the options does not matter).',
         design='DESIGN.md §4 C15',
         note='NOT decided: arithmetic of the automatic tree count (0 for dimensions = 1 -- observed, value-level, never reported); numeric equality roots.len() == n.'),
     'C20': dict(
